@@ -69,6 +69,9 @@ func checkC09(p *Program, r *Result) {
 		checkFullReadBeforeReturn(p, r, fn, 1, 2)
 	}
 
+	r.rule("C09.f", "the destination of a full read is consumed only where the read succeeded", 10)
+	checkConsumeAfterFullRead(p, r, "C09.f", sortedFuncs(readerScope(p)))
+
 	// ---- c: same engine as C15.b restricted to the lexer and helpers
 	spec := sourceSpec()
 	R := p.reachSet(spec)
